@@ -180,6 +180,9 @@ func (pr *PolicyResolver) OnPolicyMatchStopped(policyKey model.PolicyKey, endpoi
 	// This policy is not active anymore, we no longer need to track it for sorting.
 	if !pr.policyIDToEndpointIDs.ContainsKey(policyKey) {
 		pr.policySorter.UpdatePolicy(policyKey, nil)
+		// Also drop any update that is still waiting for the next flush; otherwise the flush
+		// would add the (now unmatched) policy back to the sorter, where it would go stale.
+		pr.pendingPolicyUpdates.Discard(policyKey)
 	}
 
 	pr.dirtyEndpoints.Add(endpointKey)
